@@ -436,6 +436,14 @@ func (P *Prog) checkDefaultCoercer(r *Result, fn *ssa.Function, obj ssa.Value) {
 		scan(cl, 0)
 		for _, v := range env {
 			switch y := v.(type) {
+			case *ssa.FieldAddr:
+				// the address of the configured coercer handed to the factory, dereferenced when the coercer runs
+				if g, ok := y.X.(*ssa.Global); ok {
+					if _, f := fieldVar(y); f != nil {
+						fields = append(fields, f.Name())
+						globals = append(globals, g.Name())
+					}
+				}
 			case *ssa.Function:
 				if inModule(funcPkgPath(y)) {
 					scan(y, 1)
@@ -1120,6 +1128,28 @@ func (P *Prog) checkCoercionTable(r *Result, rule string) {
 		}
 		r.sawFunc(fname(fn))
 		rows, probs := P.coercionRowsEnv(fn, env, targs)
+		// a factory that is handed the *address* of a configured coercer (`narrowingCoercer(&conf.Coercers.Int, ...)`)
+		// and calls `(*base)(data)`: that call is the call of the configured coercer, read when the coercer runs
+		for prm, arg := range env {
+			pp, isP := prm.(*ssa.Parameter)
+			fa, isFA := arg.(*ssa.FieldAddr)
+			if !isP || !isFA {
+				continue
+			}
+			g, isG := fa.X.(*ssa.Global)
+			_, f := fieldVar(fa)
+			if !isG || f == nil {
+				continue
+			}
+			for k, q := range pp.Parent().Params {
+				if q == pp {
+					for j := range rows {
+						rows[j] = strings.ReplaceAll(rows[j], fmt.Sprintf("*$%d(", k), "@"+g.Name()+"."+f.Name()+"(")
+					}
+				}
+			}
+		}
+		sort.Strings(rows)
 		if len(probs) > 0 {
 			r.undecided(rule, c, P.pos(fn.Pos()), "coercer has an unrecognised shape: "+strings.Join(probs, "; "))
 			continue
